@@ -129,6 +129,15 @@ def gen_prog(rng, cls):
         ring = rng.choice([max(fb, fb32) * 2 + 16, max(fb, fb32) * 4])
         prog = ["cfg 0 cam=0 sto=2 w=%d h=%d type=%d n=1000 avg=%d" % (w, h, t, k), "configure", "start", "sleep %d" % rng.randrange(0, 30), "abort",
                 "cfg 0 cam=0 sto=2 w=%d h=%d type=%d n=%d avg=%d" % (w, h, t, rng.choice([2, 4, 6]), k), "configure", "start", "stop"]
+    elif cls == "avgtwo":
+        # two streams, averaging on either or both (each stream's filter feeds its own sink)
+        k0 = rng.choice([1, 2, 3]); k1 = rng.choice([2, 2, 3]) if k0 == 1 or rng.random() < .7 else 1
+        w1, h1, t1 = rng.choice([1, 4]), rng.choice([2, 3]), rng.choice([0, 1])
+        fbs = [fb, R.frame_bytes(w, h, 4), R.frame_bytes(w1, h1, R.BPP[t1]), R.frame_bytes(w1, h1, 4)]
+        ring = rng.choice([max(fbs) * 2 + 16, max(fbs) * 3 + 8, max(fbs) * 5])
+        prog = ["cfg 0 cam=0 sto=2 w=%d h=%d type=%d n=%d avg=%d" % (w, h, t, rng.choice([2, 4, 5, 9]), k0),
+                "cfg 1 cam=1 sto=3 w=%d h=%d type=%d n=%d avg=%d" % (w1, h1, t1, rng.choice([2, 4, 6, 7]), k1), "configure", "start"] + \
+               rng.choice([[], ["map 1", "unmap 1 all", "monwait 1"], ["map 0", "unmap 0 all", "monwait 0"]]) + ["stop"]
     elif cls == "delay":
         prog = [cfg0 + " delay=%d" % rng.choice([1, 3]), "configure", "start", "stop"]
     elif cls == "camempty":
